@@ -5,7 +5,7 @@ an operation answered with the retryable stale-ownership error has no effect (th
 no other error class reaches a client during graceful churn."""
 import ringcheck
 
-KINDS = set("staleread splitwrite client-fatal".split())
+KINDS = set("staleread splitwrite client-fatal read-not-latest".split())
 
 def run(ck):
     ringcheck.engine(ck, "C04", KINDS, gen_kw=dict(n_ops=14, maint_p=0.2))
